@@ -18,6 +18,7 @@ A property module (props/cXX.py) defines:
 Everything a shard does is deterministic in (tier, seed, item).
 """
 
+import fnmatch
 import hashlib
 import json
 import multiprocessing
@@ -245,6 +246,9 @@ def finish(pid, mod, tier, seed, total, wall, nshards):
 def match_known(sig, known):
     if sig in known:
         return known[sig]
+    for pat, e in known.items():
+        if '*' in pat and fnmatch.fnmatchcase(sig, pat):
+            return e
     return None
 
 
